@@ -128,6 +128,9 @@ enum Case {
         /// the builder's default directive (constructors 3 and 4)
         #[serde(default)]
         dflt: Option<SDir>,
+        /// a plain accept-everything layer with `sometimes` interest on top of the stack
+        #[serde(default)]
+        under_dyn: bool,
     },
     /// replay-only: a raw directive string given to both parsers (known findings F9/F13)
     Raw { dirs: String },
@@ -267,6 +270,23 @@ struct Stack {
 enum Place {
     GlobalLayer,
     PerLayerFilter,
+    /// as the two above, with a plain layer on top (outermost) that accepts everything but
+    /// answers `sometimes` to every callsite (a `dynamic_filter_fn` used as a layer)
+    GlobalLayerUnderDyn,
+    PerLayerFilterUnderDyn,
+}
+/// a plain layer that accepts everything but answers `sometimes` to every callsite
+struct Sometimes;
+impl<C: tracing_core::Collect> tracing_subscriber::Subscribe<C> for Sometimes {
+    fn register_callsite(&self, _: &'static tracing_core::Metadata<'static>) -> tracing_core::Interest {
+        tracing_core::Interest::sometimes()
+    }
+    fn enabled(&self, _: &tracing_core::Metadata<'_>, _: tracing_subscriber::subscribe::Context<'_, C>) -> bool {
+        true
+    }
+}
+fn accept_all_dynamically() -> Sometimes {
+    Sometimes
 }
 fn stack_targets(t: Targets, place: Place) -> Stack {
     let log: LeafLog = Default::default();
@@ -274,6 +294,8 @@ fn stack_targets(t: Targets, place: Place) -> Stack {
     match place {
         Place::GlobalLayer => finish(Registry::default().with(leaf).with(t), log),
         Place::PerLayerFilter => finish(Registry::default().with(leaf.with_filter(t)), log),
+        Place::GlobalLayerUnderDyn => finish(Registry::default().with(leaf).with(t).with(accept_all_dynamically()), log),
+        Place::PerLayerFilterUnderDyn => finish(Registry::default().with(leaf.with_filter(t)).with(accept_all_dynamically()), log),
     }
 }
 fn stack_env(e: EnvFilter, place: Place) -> Stack {
@@ -282,6 +304,8 @@ fn stack_env(e: EnvFilter, place: Place) -> Stack {
     match place {
         Place::GlobalLayer => finish(Registry::default().with(leaf).with(e), log),
         Place::PerLayerFilter => finish(Registry::default().with(leaf.with_filter(e)), log),
+        Place::GlobalLayerUnderDyn => finish(Registry::default().with(leaf).with(e).with(accept_all_dynamically()), log),
+        Place::PerLayerFilterUnderDyn => finish(Registry::default().with(leaf.with_filter(e)).with(accept_all_dynamically()), log),
     }
 }
 fn finish<C: tracing_core::Collect + Send + Sync + 'static>(c: C, log: LeafLog) -> Stack {
@@ -519,7 +543,7 @@ fn build_env(s: &str, ctor: u8, dflt: &Option<SDir>) -> Result<(EnvFilter, Optio
     })
 }
 
-fn run_dynamic(sdirs_in: &[SDir], ddirs_in: &[DDir], as_filter: bool, ops: &[Op], ctor: u8, dflt: &Option<SDir>) -> Outcome {
+fn run_dynamic(sdirs_in: &[SDir], ddirs_in: &[DDir], as_filter: bool, ops: &[Op], ctor: u8, dflt: &Option<SDir>, under_dyn: bool) -> Outcome {
     let multi = ddirs_in.iter().any(|d| d.two().is_some());
     let ctor = if multi { 0 } else { ctor % 6 };
     // the model's static directives: the given ones, or the constructor's default directive when
@@ -571,9 +595,17 @@ fn run_dynamic(sdirs_in: &[SDir], ddirs_in: &[DDir], as_filter: bool, ops: &[Op]
         Ok(e2) => e2,
         Err(er) => return fail("EnvFilter cannot parse its own Display output", format!("{:?}: {er}", e.to_string())),
     };
-    let place = || if as_filter { Place::PerLayerFilter } else { Place::GlobalLayer };
+    let place = || match (as_filter, under_dyn) {
+        (true, false) => Place::PerLayerFilter,
+        (false, false) => Place::GlobalLayer,
+        (true, true) => Place::PerLayerFilterUnderDyn,
+        (false, true) => Place::GlobalLayerUnderDyn,
+    };
     let mut nontrivial = false;
     let mut classes: Vec<String> = vec![];
+    if under_dyn {
+        classes.push("under_a_sometimes_layer".into());
+    }
     if (1..=4).contains(&ctor) {
         classes.push(if sdirs_given.is_empty() && ddirs_in.is_empty() { "constructor_default_directive_applies".into() } else if sdirs_given.is_empty() { "constructor_default_directive_with_span_only_string".into() } else { "constructor_default_directive_unused".into() });
     }
@@ -1171,11 +1203,11 @@ impl Property for C11 {
         // constructor: half of the cases try_new, the rest spread over the other five
         let ctor = prop_oneof![3 => Just(0u8), 3 => 1u8..6];
         let dflt = proptest::option::weighted(0.7, sdir_strategy());
-        let dy = (proptest::collection::vec(sdir_strategy(), 0..3), proptest::collection::vec(ddir_strategy(), 0..4), any::<bool>(), proptest::collection::vec(op.clone(), 1..max), ctor.clone(), dflt.clone()).prop_map(|(sdirs, ddirs, as_filter, ops, ctor, dflt)| Case::Dynamic { sdirs, ddirs, as_filter, ops, ctor, dflt });
+        let dy = (proptest::collection::vec(sdir_strategy(), 0..3), proptest::collection::vec(ddir_strategy(), 0..4), any::<bool>(), proptest::collection::vec(op.clone(), 1..max), ctor.clone(), dflt.clone(), proptest::bool::weighted(0.25)).prop_map(|(sdirs, ddirs, as_filter, ops, ctor, dflt, under_dyn)| Case::Dynamic { sdirs, ddirs, as_filter, ops, ctor, dflt, under_dyn });
         // nested template: spans whose values do / do not satisfy a value directive are entered
         // inside each other and left again, with events in between
-        let nested = (proptest::collection::vec(sdir_strategy(), 0..2), (0u8..2, val_strategy(), 1u8..=5, proptest::option::weighted(0.5, 0u8..2)), proptest::collection::vec(ddir_strategy(), 0..2), any::<bool>(), proptest::collection::vec((0u8..2, proptest::option::weighted(0.8, val_strategy()), 0u8..6, 0u8..5), 2..4), proptest::collection::vec(op, 0..6), (ctor, dflt))
-            .prop_map(|(sdirs, (f, v, level, span), mut ddirs, as_filter, spans, extra, (ctor, dflt))| {
+        let nested = (proptest::collection::vec(sdir_strategy(), 0..2), (0u8..2, val_strategy(), 1u8..=5, proptest::option::weighted(0.5, 0u8..2)), proptest::collection::vec(ddir_strategy(), 0..2), any::<bool>(), proptest::collection::vec((0u8..2, proptest::option::weighted(0.8, val_strategy()), 0u8..6, 0u8..5), 2..4), proptest::collection::vec(op, 0..6), (ctor, dflt, proptest::bool::weighted(0.25)))
+            .prop_map(|(sdirs, (f, v, level, span), mut ddirs, as_filter, spans, extra, (ctor, dflt, under_dyn))| {
                 ddirs.insert(0, DDir { target: None, span: span.map(|_| 0), field: Some((f, Some(v))), level, field2: None });
                 let mut ops = vec![];
                 for (i, (name, val, target, lvl)) in spans.iter().enumerate() {
@@ -1190,7 +1222,7 @@ impl Property for C11 {
                     ops.push(Op::Event { level: 0, target: *target });
                 }
                 ops.extend(extra);
-                Case::Dynamic { sdirs, ddirs, as_filter, ops, ctor, dflt }
+                Case::Dynamic { sdirs, ddirs, as_filter, ops, ctor, dflt, under_dyn }
             });
         // two-matcher template: a span satisfies one of the two value matchers of a directive
         // (recorded at creation and again later), the other one never or only later
@@ -1208,7 +1240,7 @@ impl Property for C11 {
                 }
                 ops.push(Op::Exit);
                 ops.push(Op::Event { level: 4, target });
-                Case::Dynamic { sdirs, ddirs, as_filter, ops, ctor: 0, dflt: None }
+                Case::Dynamic { sdirs, ddirs, as_filter, ops, ctor: 0, dflt: None, under_dyn: false }
             });
         let tokens = proptest::collection::vec(any::<u8>(), 1..16).prop_map(|data| Case::Tokens { data });
         let fdir = (proptest::option::weighted(0.8, 0u8..3), proptest::collection::vec(0u8..4, 0..4), 0u8..6).prop_map(|(target, fields, level)| FDir { target, fields, level });
@@ -1218,7 +1250,7 @@ impl Property for C11 {
     fn run(&self, case: &Case) -> Outcome {
         match case {
             Case::Static { dirs } => run_static(dirs),
-            Case::Dynamic { sdirs, ddirs, as_filter, ops, ctor, dflt } => run_dynamic(sdirs, ddirs, *as_filter, ops, *ctor, dflt),
+            Case::Dynamic { sdirs, ddirs, as_filter, ops, ctor, dflt, under_dyn } => run_dynamic(sdirs, ddirs, *as_filter, ops, *ctor, dflt, *under_dyn),
             Case::Raw { dirs } => run_raw(dirs),
             Case::RawDirective { dirs } => run_raw_directive(dirs),
             Case::Tokens { data } => fuzz_one(data),
